@@ -255,6 +255,37 @@ func rawFor(kind, uname, size string, seed int64) []RawKey {
 				n = 24
 			}
 			return fixedUniverse(seed, w, n)
+		case "bounds":
+			// the boundary values of every interpretation of a w-byte pattern: 0, 1, -1, the signed and unsigned extremes and
+			// their neighbours, the float specials (zeros, smallest subnormals, infinities and their neighbours, a NaN)
+			seen := map[uint64]bool{}
+			var u []RawKey
+			add := func(p uint64, probe bool) {
+				p &= mask(w)
+				if !seen[p] {
+					seen[p] = true
+					u = append(u, RawKey{B: be(p, w), Probe: probe})
+				}
+			}
+			top := uint64(1) << (8*uint(w) - 1)
+			for _, p := range []uint64{0, 1, top - 1, top, top + 1, ^uint64(0), ^uint64(0) - 1, 0xff, 0x100} {
+				add(p, false)
+			}
+			if w == 4 {
+				for _, p := range []uint64{0x7f800000, 0xff800000, 0x7f7fffff, 0xff7fffff, 0x00800000, 0x80000001, 0x7fc00000, 0x3f800000, 0xbf800000} {
+					add(p, false)
+				}
+			}
+			if w == 8 {
+				for _, p := range []uint64{0x7ff0000000000000, 0xfff0000000000000, 0x7fefffffffffffff, 0xffefffffffffffff, 0x0010000000000000,
+					0x8000000000000001, 0x7ff8000000000000, 0x3ff0000000000000, 0xbff0000000000000} {
+					add(p, false)
+				}
+			}
+			for _, p := range []uint64{2, top - 2, top + 2, ^uint64(0) - 2} {
+				add(p, true)
+			}
+			return u
 		}
 		return Universe(uname, size, seed)
 	}
